@@ -75,6 +75,10 @@ Definition spec_step (s : sarr) (o : aop) : bool * sarr :=
   | OpMetaSet => match s_mode s with R => (false, s) | RW => (true, with_meta s true) end
   | OpMetaClear => if s_meta s then match s_mode s with R => (false, s) | RW => (true, with_meta s false) end
                    else (true, s)
+  | OpMetaPop => match s_mode s with
+                 | R => (false, s)
+                 | RW => if s_meta s then (true, with_meta s false) else (false, s)
+                 end
   end.
 
 Definition spec_run (s : sarr) (os : list aop) : sarr :=
@@ -135,6 +139,10 @@ Definition rspec_step (g : srag) (o : rop) : bool * srag :=
   | ROpMetaSet => match g_mode g with R => (false, g) | RW => (true, g_with_meta g true) end
   | ROpMetaClear => if g_meta g then match g_mode g with R => (false, g) | RW => (true, g_with_meta g false) end
                     else (true, g)
+  | ROpMetaPop => match g_mode g with
+                  | R => (false, g)
+                  | RW => if g_meta g then (true, g_with_meta g false) else (false, g)
+                  end
   end.
 
 Definition rspec_run (g : srag) (os : list rop) : srag :=
